@@ -70,6 +70,13 @@ def cell_refs(it, rec):
         elif name == 'End' and getattr(el, 'name', None) == 'v': inv = False
     return out
 
+def table_ref(arc):
+    """&mut SharedStringTable inside an Arc<RwLock<..>> value of the interpreter (Arc is a pointer object, RwLock is transparent)"""
+    v = arc
+    while isinstance(v, Ref): v = v.get()
+    if isinstance(v, BoxPtr): return Ref(v.cell)
+    raise Unsupported('shared string table handle is not an Arc pointer: %r' % type(v).__name__)
+
 class SaveHistory(Harness):
     name = 'shared_strings.save_history'; property_id = 'C12'
     entry = ['writer::xlsx::make_buffer', 'writer::xlsx::worksheet::write', 'writer::xlsx::shared_strings::write', CELL + 'write_to', 'structs::shared_string_table::SharedStringTable::set_cell', 'structs::shared_string_table::SharedStringTable::write_to']
@@ -77,7 +84,7 @@ class SaveHistory(Harness):
     def __init__(self, tier):
         self.maxn = 2 if tier == 'quick' else 3
         self.doc = 'the real writer::xlsx::make_buffer (every part writer except the sheet part and the shared-strings part stubbed, XML by contract model) on a real workbook with two text cells of symbolic content, for the histories %s: the <t> texts of the shared-strings part of each save are exactly the texts of the string cells of the workbook being saved at that moment, each once, and every cell of the sheet part refers to the index of its own text' % ', '.join(HISTORIES)
-        self.bounds = {'histories': HISTORIES, 'cells': 2, 'text_chars': [1, self.maxn], 'alphabet': 'a-c', 'sheets': 'one, deserialised (workbooks with unloaded raw sheets keep the loaded table by design and are outside the kernel)', 'stubs': 'all part writers except worksheet and sharedStrings; zip archive; non-cell children of the sheet part'}
+        self.bounds = {'histories': HISTORIES, 'cells': 2, 'text_chars': [1, self.maxn], 'alphabet': 'a-c', 'workbook_table': 'empty (new workbook) or already holding the strings of the cells (workbook read from a file)', 'sheets': 'one, deserialised (workbooks with unloaded raw sheets keep the loaded table by design and are outside the kernel)', 'stubs': 'all part writers except worksheet and sharedStrings; zip archive; non-cell children of the sheet part'}
     def setup(self, it):
         from engine import cryptomodel as cm
         xmlmodel.install(it); xmlmodel.install_events(it); cm.install(it); cm.install_digests(it)
@@ -111,6 +118,14 @@ class SaveHistory(Harness):
             it.call(BOOK + 'new_sheet::<&str>', [Ref(book), sref('S')])
             self.set_text(it, book, 1, t1); self.set_text(it, book, 2, t2)
             cur = [t1, t2]
+            if ctx.branch(ctx.sym_bool('loaded_table')):
+                # the state after reading a file: the workbook's own table already holds the strings of its cells
+                info['loaded_table'] = True
+                tab = it.call(BOOK + 'get_shared_string_table', [Ref(book)])
+                ws0 = it.call(BOOK + 'get_sheet_mut', [Ref(book), iref(0)]).fields[0]
+                for col in (1, 2):
+                    cell = it.call(WS + 'get_cell_mut::<(u32, u32)>', [ws0, [col, 1]])
+                    it.call('structs::shared_string_table::SharedStringTable::set_cell', [table_ref(tab), it.call(CELL + 'get_cell_value', [cell])])
             if hist == 'save': saves.append(self.snap('save', list(cur), self.save(it, book)))
             elif hist == 'save_save':
                 saves.append(self.snap('first save', list(cur), self.save(it, book))); saves.append(self.snap('second save', list(cur), self.save(it, book)))
@@ -159,9 +174,9 @@ class SaveHistory(Harness):
     def case_of(self, v):
         m = v['model']
         f = lambda t: ''.join(chr(m['%s%d' % (t, i)]) for i in range(m.get(t + 'len', 1)))
-        c = {'history': HISTORIES[m['history']], 'a1': f('x'), 'b1': f('y'), 'new': f('z'), 'oblig': v['oblig']}; c['show'] = dict(c); return c
+        c = {'history': HISTORIES[m['history']], 'a1': f('x'), 'b1': f('y'), 'new': f('z'), 'loaded': bool(m.get('loaded_table')), 'oblig': v['oblig']}; c['show'] = dict(c); return c
     def confirm(self, case, profile):
-        r = native.run_cases([['save_history', case['history'], case['a1'], case['b1'], case['new']]], profile, timeout_each=120)[0]
+        r = native.run_cases([['save_history', case['history'], case['a1'], case['b1'], case['new'], bool(case.get('loaded'))]], profile, timeout_each=120)[0]
         if r[0] != 'ok': return True, 'history %r -> %r' % (case['show'], r)
         rows = [native.unhx(x) for x in r[1]]
         bad = [row for row in rows if row.split(' | ')[1] != row.split(' | ')[2] or row.split(' | ')[3] != 'cells reload unchanged']
